@@ -32,6 +32,7 @@ pub fn gen_wp(t: &mut Tape, nmax: usize, mmax: usize) -> WpCase {
         near_prob: 0.0,
         extreme_alpha: false,
         full_rank: true,
+        p_scale_decades: 3.0,
     };
     let n = t.usize_in(1, nmax);
     // bigger cone lists for bigger problems
@@ -57,7 +58,25 @@ pub fn gen_wp(t: &mut Tape, nmax: usize, mmax: usize) -> WpCase {
     WpCase { ps }
 }
 
+/// stratum of the family by the hardest cone kind present
+pub fn stratum(ps: &ProblemSpec) -> &'static str {
+    let has = |k: &str| ps.cones.iter().any(|c| c.dim() > 0 && c.kind() == k);
+    if has("genpow") {
+        "genpow"
+    } else if has("exp") || has("pow") {
+        "exp/pow"
+    } else if has("psd") {
+        "psd"
+    } else {
+        "lp/qp/socp"
+    }
+}
+
+/// frozen per-stratum envelopes for the 95th percentile of iteration counts (ceil(1.5 x baseline p95))
+pub const STRATUM_ENVELOPES: [(&str, u32); 4] = [("lp/qp/socp", 15), ("psd", 18), ("exp/pow", 21), ("genpow", 32)];
+
 pub struct Obs {
+    pub stratum: &'static str,
     pub status: SolverStatus,
     pub iters: u32,
     pub class: String,
@@ -65,7 +84,7 @@ pub struct Obs {
 }
 
 pub fn run(run: &mut PropRun) {
-    run.rule = format!("family G: proptest-generated problems with a planted strictly feasible primal-dual pair (interior margins >= 1e-1 relative by construction, sizes n<=60/m<=120 in thorough and n<=25/m<=50 in quick, all cone mixtures, entries <= 1e3), DEFAULT settings. Oracle (distributional): fraction Solved >= {REQUIRED_SOLVED} decided with a one-sided binomial margin, and p95(iterations) <= {P95_ENVELOPE} (frozen envelope). non-trivial = m>=1 with a cone other than the zero cone; distinct = distinct serialised instance");
+    run.rule = format!("family G: proptest-generated problems with a planted strictly feasible primal-dual pair (interior margins >= 1e-1 relative by construction, sizes n<=60/m<=120 in thorough and n<=25/m<=50 in quick, all cone mixtures, entries <= 1e3), DEFAULT settings. Oracle (distributional): fraction Solved >= {REQUIRED_SOLVED} decided with a one-sided binomial margin, and p95(iterations) <= {P95_ENVELOPE} overall and <= 15/18/21/32 in the strata lp-qp-socp / psd / exp-pow / genpow (frozen envelopes = ceil(1.5 x baseline p95 of 10/12/14/21)). 40% of instances have P rescaled by 10^U(-3,3). non-trivial = m>=1 with a cone other than the zero cone; distinct = distinct serialised instance");
     run.assumptions = vec![
         "the gate is statistical: a slowdown or failure confined to <0.5% of G is invisible".into(),
         "PSD cones run on the harness' pure-Rust BLAS/LAPACK shim".into(),
@@ -82,7 +101,7 @@ pub fn run(run: &mut PropRun) {
             ctx.nontrivial();
         }
         let js = if out.status != SolverStatus::Solved { serde_json::to_string(c).unwrap_or_default() } else { String::new() };
-        obs.lock().unwrap().push(Obs { status: out.status, iters: out.iterations, class, case_json: js });
+        obs.lock().unwrap().push(Obs { stratum: stratum(&c.ps), status: out.status, iters: out.iterations, class, case_json: js });
         Ok(())
     };
     let quick = run.cfg.quick();
@@ -122,6 +141,20 @@ pub fn run(run: &mut PropRun) {
         v.sort_by(|a, b| (a.2 as f64 / a.1 as f64).partial_cmp(&(b.2 as f64 / b.1 as f64)).unwrap());
         v.into_iter().take(8).collect()
     };
+    // per-stratum percentiles
+    let mut strata_stats = vec![];
+    let mut strata_msgs = vec![];
+    for (name, env) in STRATUM_ENVELOPES.iter() {
+        let mut it: Vec<u32> = obs.iter().filter(|o| o.stratum == *name && o.status == SolverStatus::Solved).map(|o| o.iters).collect();
+        it.sort();
+        let tot = obs.iter().filter(|o| o.stratum == *name).count();
+        let q = |p: f64| if it.is_empty() { 0 } else { it[((it.len() as f64 - 1.0) * p).round() as usize] };
+        strata_stats.push(json!({"stratum": name, "instances": tot, "solved": it.len(), "p50": q(0.5), "p95": q(0.95), "p99": q(0.99), "envelope_p95": env}));
+        if *env > 0 && tot >= 200 && q(0.95) > *env {
+            strata_msgs.push(format!("stratum {name}: 95th percentile of iteration counts is {}, above its frozen envelope {env}", q(0.95)));
+        }
+    }
+    run.extra.insert("strata".into(), json!(strata_stats));
     run.extra.insert("fraction_solved".into(), json!(frac));
     run.extra.insert("gate_threshold".into(), json!(threshold));
     run.extra.insert("iterations_p50_p95_p99_max".into(), json!([pct(0.5), p95, pct(0.99), iters.last().copied().unwrap_or(0)]));
@@ -144,6 +177,7 @@ pub fn run(run: &mut PropRun) {
     if p95 > P95_ENVELOPE {
         msgs.push(format!("95th percentile of iteration counts is {p95}, above the frozen envelope {P95_ENVELOPE}"));
     }
+    msgs.extend(strata_msgs);
     if !msgs.is_empty() {
         run.failures.push(Failure { suite: "wellposed-gate".into(), message: msgs.join("; "), case_json: json!({"non_solved_instances": unsolved, "fraction_solved": frac, "p95": p95}), tape: vec![] });
     }
